@@ -1282,6 +1282,13 @@ pub fn hostile_sctp(view: &SctpView, r: &mut Rng, allow_teardown: bool) -> Vec<u
                     let lf = match r.below(6) { 0 => 0, 1 => 3, 2 => 4, 3 => 0xffff, 4 => (vl + 5) as u16, _ => (vl + 4) as u16 };
                     params.extend_from_slice(&param(t, lf, &val));
                 }
+                if r.chance(1, 3) {
+                    // unaligned, unpadded final parameter (its padding is not part of the chunk length)
+                    let vl = *r.pick(&[1usize, 2, 3, 5, 6, 7]);
+                    params.extend_from_slice(&0x8008u16.to_be_bytes());
+                    params.extend_from_slice(&((vl + 4) as u16).to_be_bytes());
+                    params.extend_from_slice(&r.bytes(vl));
+                }
                 let tsn = r.u32();
                 chunk(1, 0, &init_value(near(r, view.my_tag), *r.pick(&[0u32, 1, 1500, 0xffff_ffff, 131072]), r.u16(), r.u16(), tsn, &params))
             }
@@ -1297,6 +1304,15 @@ pub fn hostile_sctp(view: &SctpView, r: &mut Rng, allow_teardown: bool) -> Vec<u
                     let vl = r.usize_below(12);
                     let val = r.bytes(vl);
                     params.extend_from_slice(&param(r.u16(), *r.pick(&[0u16, 4, 8, 0xffff]), &val));
+                }
+                if r.chance(1, 2) {
+                    // RFC 4960 3.2.1: the chunk length does not count the padding of the LAST
+                    // parameter - a consistent, unaligned, unpadded final parameter
+                    let vl = *r.pick(&[1usize, 2, 3, 5, 6, 7, 9]);
+                    let t = *r.pick(&[0x8008u16, 0x8002, 0xC000, 0x8004, 11, 0x7fff]);
+                    params.extend_from_slice(&t.to_be_bytes());
+                    params.extend_from_slice(&((vl + 4) as u16).to_be_bytes());
+                    params.extend_from_slice(&r.bytes(vl));
                 }
                 chunk(2, 0, &init_value(r.u32(), r.u32(), r.u16(), r.u16(), r.u32(), &params))
             }
@@ -1405,6 +1421,42 @@ pub fn hostile_sctp(view: &SctpView, r: &mut Rng, allow_teardown: bool) -> Vec<u
         p.truncate(r.usize_below(p.len() + 1));
     }
     p
+}
+
+/// A checksum-valid INIT ACK with the right verification tag whose parameter list ends in shape `k`:
+/// consistent length fields throughout; the variants differ in alignment and in whether the padding
+/// of the final parameter is inside the chunk length (rustrtc's own style) or not (RFC 4960 3.2.1).
+fn crafted_init_ack(view: &SctpView, k: u64) -> Vec<u8> {
+    let raw = |t: u16, val: &[u8], pad: bool| -> Vec<u8> {
+        let mut v = Vec::new();
+        v.extend_from_slice(&t.to_be_bytes());
+        v.extend_from_slice(&((val.len() + 4) as u16).to_be_bytes());
+        v.extend_from_slice(val);
+        if pad {
+            while v.len() % 4 != 0 {
+                v.push(0);
+            }
+        }
+        v
+    };
+    let cookie = raw(7, &[0xab; 16], true);
+    let mut params = vec![];
+    match k % 12 {
+        0 => { params.extend(cookie); params.extend(raw(0x8008, &[130, 192], false)); }
+        1 => params.extend(raw(0x8008, &[130, 192], false)),
+        2 => params.extend(raw(7, &[0xab; 17], false)),
+        3 => { params.extend(cookie); params.extend(raw(0xC000, &[1], false)); }
+        4 => { params.extend(cookie); params.extend(raw(0x8002, &[1, 2, 3], false)); }
+        5 => { params.extend(raw(0x8008, &[130, 192], true)); params.extend(cookie); }
+        6 => { params.extend(cookie); params.extend(raw(0x8008, &[130, 192], true)); }
+        7 => { params.extend(cookie); params.extend(raw(11, b"host.name", false)); }
+        8 => { params.extend(raw(0x8008, &[130], false)); }
+        9 => { params.extend(cookie); params.extend(raw(0x8004, &[0x80, 0x08, 0xc0], false)); }
+        10 => { params.extend(raw(0xC000, &[], true)); params.extend(raw(7, &[0xcd; 30], false)); }
+        _ => { params.extend(cookie); params.extend(raw(0x7fff, &[9; 5], false)); }
+    }
+    let ia = chunk(2, 0, &init_value(view.my_tag, 131072, 10, 10, view.next_tsn, &params));
+    sctp_packet(5000, 5000, view.victim_tag, &ia, true)
 }
 
 struct SctpRig {
@@ -1882,7 +1934,16 @@ fn sctp_body(mut c: Camp) -> Pin<Box<dyn Future<Output = (Camp, End)> + Send>> {
             c.count(&format!("live.sctp.flood.campaigns[{kind}]"), 1);
         }
         for i in 0..(if flood.is_some() { 0 } else { n }) {
-            let p = hostile_sctp(&s.view, &mut c.rng, teardown);
+            // cookie_wait: only the FIRST INIT ACK a client sees is walked (it cancels T1), so the
+            // parameter-walker shapes get one fresh association each
+            let crafted = if i == 0 { c.scenario["first_init_ack"].as_u64().map(|k| crafted_init_ack(&s.view, k)) } else { None };
+            if crafted.is_some() {
+                c.seen("live.sctp.first_init_ack_variants", format!("{}", c.scenario["first_init_ack"]));
+            }
+            let p = match crafted {
+                Some(p) => p,
+                None => hostile_sctp(&s.view, &mut c.rng, teardown),
+            };
             c.fed(&p);
             sctp_send(&s, p).await;
             if i % 16 == 15 { drain_view(&mut s).await; }
@@ -1958,6 +2019,9 @@ fn specs(args: &Args) -> Vec<Spec> {
         push("sctp", sctp_body, json!({"state":st,"n":ns}));
     }
     push("sctp", sctp_body, json!({"state":"established","n":ns/2,"teardown":true}));
+    for k in 0..12u64 {
+        push("sctp", sctp_body, json!({"state":"cookie_wait","n":24,"first_init_ack":k}));
+    }
     // structured floods (histories that reach the caps of bounded structures)
     let nf = if q { 640 } else { 3000 };
     for kind in ["ooo_data", "dup_tsn", "sack", "fwd_tsn", "init_cookie", "dcep_open"] {
